@@ -1,0 +1,53 @@
+//go:build verif
+
+// Machine-checked contracts for package zog (comment-only; compiled only with -tags verif).
+// Read by /verif/engine (govc). Obligation names are <pkg>.<Func>#<kind>:<label>.
+package zog
+
+
+// ---- function-type contracts for user callbacks
+
+// A PostTransform may rewrite the value it is given and report an error through its result only (A7).
+//@ functype PostTransform(self, dataPtr, ctx)
+//@   requires[C12] ctx_is_schemactx: istype(ctx, *p.SchemaCtx) && p.wfctx(ctx.(*p.SchemaCtx))
+//@   requires[C12] gate_no_issue_yet: p.LC(ctx.(*p.SchemaCtx)) == empty()
+//@   requires[C12] own_value: dataPtr == ctx.(*p.SchemaCtx).ValPtr
+//@   modifies valueof(dataPtr)
+//@   ensures istype(result, *p.ZogIssue) ==> result.(*p.ZogIssue) != nil
+
+// ---- the primitive pipeline (generic: proved once for every T)
+
+//@ spec pdest(ctx) = ctx.ValPtr.(*T)
+//@ spec absent(isZeroFunc, ctx) = bverdict(isZeroFunc, old(ctx.Data))
+
+//@ spec ctxfootprint_doc(ctx) = true
+
+//@ func primitiveProcessor(ctx, tests, postTransforms, defaultVal, required, catch, coercer, isZeroFunc)
+//@   requires p.wfctx(ctx)
+//@   requires[C05] entry_not_exited: !ctx.Exit
+//@   requires[C06] dest_matches: istype(ctx.ValPtr, *T) && ctx.ValPtr.(*T) != nil
+//@   requires coercer != nil && isZeroFunc != nil
+//@   requires[C06] coercer_matches: cotype(coercer) == tid(T)
+//@   requires[C06] tests_wf: forall(i, 0, len(tests), tests[i].Func != nil)
+//@   requires[C06] pts_wf: forall(i, 0, len(postTransforms), postTransforms[i] != nil)
+//@   modifies ctx.CanCatch, ctx.Exit, ctx.Test, *ctx.ValPtr.(*T), p.LC(ctx), tf_ran, keyof(String), when(istype(ctx.ExecCtx.Errors, *p.ErrsList), ctx.ExecCtx.Errors.(*p.ErrsList).List), when(istype(ctx.ExecCtx.Errors, *p.ErrsMap), ctx.ExecCtx.Errors.(*p.ErrsMap).M), anyelems(Ptr), mapsof(p.ZogIssueMap)
+//@   ensures[C05] cancatch_iff_catch: ctx.CanCatch == (catch != nil)
+//@   ensures[C02] rep: p.zrep(ctx.ExecCtx.Errors)
+//@   loop rangeindex.loop#1
+//@     invariant p.wfctx(ctx)
+//@     invariant[C05] not_exited: !ctx.Exit
+//@     invariant[C01,C02] every_test_runs: tf_ran == old(tf_ran) + zz_i
+//@     invariant[C05] catch_silent: catch != nil ==> p.LC(ctx) == old(p.LC(ctx))
+
+// The deferred PostTransform runner of primitiveProcessor.
+//@ func primitiveProcessor$1()
+//@   requires p.wfctx(ctx) && destPtr != nil && box(destPtr) == ctx.ValPtr
+//@   requires[C06] pts_wf: forall(i, 0, len(postTransforms), postTransforms[i] != nil)
+//@   modifies ctx.Exit, *destPtr, p.LC(ctx), keyof(String), when(istype(ctx.ExecCtx.Errors, *p.ErrsList), ctx.ExecCtx.Errors.(*p.ErrsList).List), when(istype(ctx.ExecCtx.Errors, *p.ErrsMap), ctx.ExecCtx.Errors.(*p.ErrsMap).M), anyelems(Ptr), mapsof(p.ZogIssueMap)
+//@   ensures[C12] skipped_after_issue: old(p.LC(ctx)) != empty() ==> unchanged(p.LC(ctx)) && unchanged(*destPtr) && unchanged(ctx.Exit)
+//@   ensures[C12] no_pts: len(postTransforms) == 0 ==> unchanged(p.LC(ctx)) && unchanged(*destPtr) && unchanged(ctx.Exit)
+//@   ensures[C02] rep: p.zrep(ctx.ExecCtx.Errors)
+//@   loop rangeindex.loop#1
+//@     invariant p.wfctx(ctx) && box(destPtr) == ctx.ValPtr
+//@     invariant[C12] still_no_issue: p.LC(ctx) == empty()
+//@     invariant unchanged(ctx.Exit)
